@@ -30,9 +30,20 @@ inductive Scope where
   | call | async | notified | forever
   deriving Repr, DecidableEq, Inhabited
 
+/-- the `target` type of one `ast.Alias` of a typedef chain: what `_get_transfer_default_returntype_basic`
+    and the chain walk of `_get_transfer_default_return` look at -/
+structure AliasLink where
+  fundamental : Option Str     -- alias.target.target_fundamental
+  giname : Option Str          -- alias.target.target_giname
+  ctype : Str                  -- alias.target.ctype
+  isConst : Bool               -- alias.target.is_const
+  deriving Repr, DecidableEq, Inhabited
+
 /-- what `Transformer.lookup_typenode(type)` finds for a type carrying a target_giname -/
 inductive Target where
-  | alias (fundamental : Option Str) (isConst : Bool)  -- ast.Alias: its target's target_fundamental / is_const
+  /-- ast.Alias.  `links`: the target type of this alias, then — as long as `lookup_typenode` of the previous
+      target is again an (unvisited) ast.Alias — the target type of that alias, and so on -/
+  | alias (links : List AliasLink)
   | boxed                                               -- ast.Boxed
   | compound (registered : Bool)  -- ast.Record / ast.Union; registered = gtype_name is not None or foreign
   | enumLike                      -- ast.Enum / ast.Bitfield
@@ -96,6 +107,21 @@ def transferDefaultReturnBasic (ty : TyInfo) : Option Transfer :=
   else if isEquivFund ty stringName then some .full
   else none
 
+/-- the `ast.Type` view of an alias' target -/
+def AliasLink.ty (l : AliasLink) : TyInfo :=
+  { fundamental := l.fundamental, giname := l.giname, node := none, callbackName := none, ctype := l.ctype,
+    isConst := l.isConst, isVarargs := false }
+
+/-- the `while isinstance(target, ast.Alias) and id(target) not in seen` loop of `_get_transfer_default_return`:
+    the first level of the typedef chain that decides; a target without giname ends the walk; when the chain
+    is exhausted (the next node is no alias, or was seen) there is no default -/
+def aliasChainDefault : List AliasLink → Option Transfer
+  | [] => none
+  | l :: rest =>
+    match transferDefaultReturnBasic l.ty with
+    | some t => some t
+    | none => if l.giname.isNone then none else aliasChainDefault rest
+
 inductive PyErr where
   | assertion (what : Str)
   | valueError (what : Str)
@@ -111,10 +137,7 @@ def transferDefaultReturn (isConstructor : Bool) (ty : TyInfo) : Except PyErr (O
   | none =>
     if ty.giname.isNone then .ok none
     else match ty.node with
-      | some (.alias f c) =>
-        .ok (transferDefaultReturnBasic
-          { fundamental := f, giname := none, node := none, callbackName := none, ctype := [], isConst := c,
-            isVarargs := false })
+      | some (.alias links) => .ok (aliasChainDefault links)
       | some .boxed => .ok (some .full)
       | some (.compound true) => .ok (some .full)
       | some .enumLike => .ok (some .none)
